@@ -311,9 +311,28 @@ def atoms_object_case(draw):
         "sampling": draw(st.sampled_from([0.3, 0.4, 0.5])),
         "seed": draw(gen.seeds()),
         "sigma": round(draw(gen.floats(0.0, 0.2)), 3),
+        # how the frozen-phonon sigmas are spelled (added after seeded/C32-3: the anisotropic
+        # branch of FrozenPhonons.randomize is separate code)
+        "sigma_kind": draw(st.sampled_from(["scalar", "scalar", "aniso", "aniso_dict", "per_atom"])),
         "energy": draw(gen.energies()),
         "u": [round(draw(gen.floats(0.05, 0.95)), 3) for _ in range(2)],
     }
+
+
+def _fp_sigmas(case, atoms):
+    """Frozen-phonon sigmas in the documented spellings: float, (sx, sy, sz), per-element
+    dict of 3-tuples, per-atom sequence."""
+    from ase.data import chemical_symbols
+
+    s0 = case["sigma"]
+    kind = case.get("sigma_kind", "scalar")
+    if kind == "aniso":
+        return {chemical_symbols[z]: (s0, 0.5 * s0, 2.0 * s0) for z in sorted(set(atoms.numbers))}
+    if kind == "aniso_dict":
+        return {chemical_symbols[z]: (s0 * (1 + i), s0, 0.5 * s0) for i, z in enumerate(sorted(set(atoms.numbers)))}
+    if kind == "per_atom":
+        return [s0 * (1 + 0.1 * i) for i in range(len(atoms))]
+    return s0
 
 
 @claim(
@@ -353,11 +372,11 @@ def check_atoms_objects(case, ctx):
     elif api == "Potential.get_transformed_atoms":
         fn = lambda: (abtem.Potential(atoms, **kw).get_transformed_atoms(), abtem.Potential(atoms, **kw).get_sliced_atoms())
     elif api == "FrozenPhonons.iter":
-        fn = lambda: list(abtem.FrozenPhonons(atoms, 2, case["sigma"], seed=case["seed"]))
+        fn = lambda: list(abtem.FrozenPhonons(atoms, 2, _fp_sigmas(case, atoms), seed=case["seed"]))
     elif api == "FrozenPhonons.to_atoms_ensemble":
-        fn = lambda: abtem.FrozenPhonons(atoms, 2, case["sigma"], seed=case["seed"]).to_atoms_ensemble()
+        fn = lambda: abtem.FrozenPhonons(atoms, 2, _fp_sigmas(case, atoms), seed=case["seed"]).to_atoms_ensemble()
     elif api == "Potential(FrozenPhonons)":
-        fn = lambda: abtem.Potential(abtem.FrozenPhonons(atoms, 2, case["sigma"], seed=case["seed"]), **kw).build(lazy=False)
+        fn = lambda: abtem.Potential(abtem.FrozenPhonons(atoms, 2, _fp_sigmas(case, atoms), seed=case["seed"]), **kw).build(lazy=False)
     elif api in ("Potential(AtomsEnsemble)", "Potential(list)"):
         other = atoms.copy()
         other.positions[:] = other.positions + np.random.default_rng(case["seed"]).normal(scale=case["sigma"], size=other.positions.shape)
